@@ -1,8 +1,439 @@
-(* C02 — lemmas (stub, being filled in) *)
-From Coq Require Import ZArith NArith List Bool Lia.
-From KV Require Import Common.Verdict Model.C02.
+(* C02 — lemmas about Model/C01.v + Model/C02.v: key shares are consistent with the group key.
+   Property statements are in Props/C02.v.
+
+   The mathematical content: let QUAL be the set of qualified dealers and f_k the polynomial
+   (at most t+1 coefficients) dealer k shared.  Write D k i = f_k(i) and F = sum_k f_k.
+     - CombineMemberShares (phase6) yields share_i = F(i) mod q when member i holds, for every
+       k in QUAL, a share that equals D k i modulo q;
+     - ComputeGroupPublicKeyShares (pubshare_for / phase12) yields, in the discrete-log
+       representation, F(i) mod q for member i when member j holds for every k in QUAL either
+       public key share points that evaluate to D k i at i, or a revealed share D k i;
+     - CombineGroupPublicKey (phase12) yields F(0) mod q when the accepted points' constant
+       terms and the reconstructed individual keys are f_k(0);
+     - reconstructIndividualPrivateKeys / calculateLagrangeCoefficient (interpolate0) return
+       f_k(0) from at least (number of coefficients) correct shares (Proofs/C02_lagrange.v);
+     - any t+1 shares F(i) at distinct indices interpolate to F(0).
+   The hypotheses "member i's / member j's view is consistent with the dealing" are what the
+   agreement property (C01) is about; here they are explicit premises. *)
+From Coq Require Import ZArith Znumtheory NArith List Bool Lia Permutation.
+From KV Require Import Common.Verdict Model.C02 Proofs.C02_arith Proofs.C02_lagrange.
 Import ListNotations.
 Open Scope N_scope.
 
+(* ================================================================================= *)
+(* 0. small list facts                                                               *)
+(* ================================================================================= *)
+
+Lemma lookup_In : forall A k (v : A) l, lookup k l = Some v -> In (k, v) l.
+Proof.
+  intros A k v l. induction l as [|[k' v'] l IH]; cbn [lookup]; [discriminate|].
+  destruct (N.eqb_spec k k') as [->|_].
+  - intros [= ->]. left. reflexivity.
+  - intros H. right. apply IH. exact H.
+Qed.
+
+Lemma fold_left_snd (Q : Z) : forall (l : list (N * Z)) init,
+  fold_left (fun acc p => ((acc + snd p) mod Q)%Z) l init = sum_mod Q (map snd l) init.
+Proof.
+  induction l as [|p l IH]; intros init; cbn [fold_left map sum_mod]; [reflexivity|].
+  rewrite IH. reflexivity.
+Qed.
+
+Lemma map_snd_as_fst : forall (l : list (N * Z)), map snd l = map (fun p => snd p) l.
+Proof. reflexivity. Qed.
+
+(* ================================================================================= *)
+(* 1. the dealing and the three combination steps                                    *)
+(* ================================================================================= *)
+Section Dealing.
+  Variable c : cfg.
+  Let Q := q c.
+  Variable poly : N -> list Z.          (* the polynomial each qualified dealer shared *)
+  Variable qual : list N.               (* QUAL *)
+
+  Definition D (k i : N) : Z := horner (poly k) (Z.of_N i).
+  Definition total (i : N) : Z := fold_right Z.add 0%Z (map (fun k => D k i) qual).
+  Definition secret : Z := fold_right Z.add 0%Z (map (fun k => nth 0 (poly k) 0%Z) qual).
+
+  (* ----- phase 6: CombineMemberShares ----- *)
+  Definition recv_ok (s : mstate) : Prop :=
+    Permutation (me s :: map fst (qualS s)) qual /\
+    (selfS s mod Q = D (me s) (me s) mod Q)%Z /\
+    (forall k v, In (k, v) (qualS s) -> (v mod Q = D k (me s) mod Q)%Z).
+
+  Lemma phase6_share : forall s, recv_ok s ->
+    (share (phase6 c s) mod Q = total (me s) mod Q)%Z.
+  Proof.
+    intros s (Hperm & Hself & Hq).
+    unfold phase6. fold Q.
+    change (share (set_share ?v s)) with v.
+    rewrite fold_left_snd, sum_mod_spec.
+    unfold total. rewrite <- (fold_add_perm _ _ (Permutation_map (fun k => D k (me s)) Hperm)).
+    cbn [map fold_right].
+    rewrite Zplus_mod, Hself.
+    assert (E : (fold_right Z.add 0 (map snd (qualS s)) mod Q
+                 = fold_right Z.add 0 (map (fun k => D k (me s)) (map fst (qualS s))) mod Q)%Z).
+    { rewrite map_map. apply fold_add_mod_ext. intros [k v] Hin. cbn [fst snd]. apply Hq. exact Hin. }
+    rewrite E, <- Zplus_mod. reflexivity.
+  Qed.
+
+  (* ----- phase 12: ComputeGroupPublicKeyShares ----- *)
+  Definition contrib_ok (s : mstate) (i k : N) : Prop :=
+    (exists ps, lookup k (validPts s) = Some ps /\ (eval Q ps i mod Q = D k i mod Q)%Z) \/
+    (lookup k (validPts s) = None /\
+     exists sh v, lookup k (revealed s) = Some sh /\ lookup i sh = Some v /\ (v mod Q = D k i mod Q)%Z).
+  Definition pub_ok (s : mstate) (i : N) : Prop :=
+    Permutation (me s :: map fst (qualS s)) qual /\
+    (eval Q (points s) i mod Q = D (me s) i mod Q)%Z /\
+    (forall k, In k (map fst (qualS s)) -> contrib_ok s i k).
+
+  Definition pub_step (s : mstate) (op : N) (acc : option Z) (p : N * Z) : option Z :=
+    match acc with None => None | Some sum =>
+      match lookup (fst p) (validPts s) with
+      | Some ps => Some ((sum + eval Q ps op) mod Q)%Z
+      | None => match lookup (fst p) (revealed s) with
+                | Some sh => match lookup op sh with
+                             | Some v => Some ((sum + v) mod Q)%Z
+                             | None => None
+                             end
+                | None => Some sum
+                end
+      end end.
+  Lemma pubshare_forE s op :
+    pubshare_for c s op = fold_left (pub_step s op) (qualS s) (Some (eval Q (points s) op)).
+  Proof. reflexivity. Qed.
+
+  Lemma pub_fold s i : forall (l : list (N * Z)) sum,
+    (forall k, In k (map fst l) -> contrib_ok s i k) ->
+    exists v, fold_left (pub_step s i) l (Some sum) = Some v /\
+              (v mod Q = (sum + fold_right Z.add 0 (map (fun k => D k i) (map fst l))) mod Q)%Z.
+  Proof.
+    induction l as [|[k x] l IH]; intros sum H; cbn [fold_left map fold_right fst].
+    - exists sum. split; [reflexivity|]. rewrite Z.add_0_r. reflexivity.
+    - assert (Hk : contrib_ok s i k) by (apply H; left; reflexivity).
+      assert (Hl : forall k0, In k0 (map fst l) -> contrib_ok s i k0) by (intros k0 H0; apply H; right; exact H0).
+      unfold pub_step at 2. cbn [fst].
+      destruct Hk as [(ps & E1 & E2) | (E1 & sh & v & E2 & E3 & E4)].
+      + rewrite E1. destruct (IH ((sum + eval Q ps i) mod Q)%Z Hl) as (v & Hv1 & Hv2).
+        exists v. split; [exact Hv1|]. rewrite Hv2.
+        rewrite Zplus_mod, Zplus_mod_idemp_l, (Zplus_mod sum), E2, <- (Zplus_mod sum), <- Zplus_mod.
+        f_equal. ring.
+      + rewrite E1, E2, E3. destruct (IH ((sum + v) mod Q)%Z Hl) as (w & Hw1 & Hw2).
+        exists w. split; [exact Hw1|]. rewrite Hw2.
+        rewrite Zplus_mod, Zplus_mod_idemp_l, (Zplus_mod sum), E4, <- (Zplus_mod sum), <- Zplus_mod.
+        f_equal. ring.
+  Qed.
+
+  Lemma pubshare_for_total : forall s i, pub_ok s i ->
+    exists v, pubshare_for c s i = Some v /\ (v mod Q = total i mod Q)%Z.
+  Proof.
+    intros s i (Hperm & Hown & Hk).
+    rewrite pubshare_forE.
+    destruct (pub_fold s i (qualS s) (eval Q (points s) i) Hk) as (v & Hv1 & Hv2).
+    exists v. split; [exact Hv1|]. rewrite Hv2.
+    unfold total. rewrite <- (fold_add_perm _ _ (Permutation_map (fun k => D k i) Hperm)).
+    cbn [map fold_right]. rewrite Zplus_mod, Hown, <- Zplus_mod. reflexivity.
+  Qed.
+
+  (* what phase12 stores: a share for every other operating member *)
+  Lemma lookup_flat_some : forall (F : N -> option Z) (l : list N) i v,
+    (forall m, In m l -> exists w, F m = Some w) -> In i l -> F i = Some v ->
+    lookup i (flat_map (fun p : N * option Z => match snd p with Some w => [(fst p, w)] | None => [] end)
+                       (map (fun m => (m, F m)) l)) = Some v.
+  Proof.
+    intros F l i v. induction l as [|m l IH]; intros Hall Hin Hi; [destruct Hin|].
+    cbn [map flat_map snd fst].
+    destruct (Hall m (or_introl eq_refl)) as [w Hw]. rewrite Hw. cbn [app lookup].
+    destruct (N.eqb_spec i m) as [->|Hne].
+    - rewrite Hw in Hi. exact Hi.
+    - apply IH; [intros m0 H0; apply Hall; right; exact H0| |exact Hi].
+      destruct Hin as [->|Hin]; [contradiction|exact Hin].
+  Qed.
+
+  Lemma existsb_none_false : forall (F : N -> option Z) (l : list N),
+    (forall m, In m l -> exists w, F m = Some w) ->
+    existsb (fun p : N * option Z => match snd p with None => true | Some _ => false end)
+            (map (fun m => (m, F m)) l) = false.
+  Proof.
+    intros F l. induction l as [|m l IH]; intros Hall; [reflexivity|].
+    cbn [map existsb snd]. destruct (Hall m (or_introl eq_refl)) as [w ->]. cbn [orb].
+    apply IH. intros m0 H0. apply Hall. right. exact H0.
+  Qed.
+
+  Lemma phase12_pubshare : forall s i,
+    points s <> [] ->
+    (forall m, In m (operating c s) -> m <> me s -> pub_ok s m) ->
+    In i (operating c s) -> i <> me s ->
+    failed (phase12 c s) = failed s /\
+    exists v, lookup i (pubsh (phase12 c s)) = Some v /\ (v mod Q = total i mod Q)%Z.
+  Proof.
+    intros s i Hpts Hall Hi Hne.
+    unfold phase12. destruct (points s) as [|own rest] eqn:Ep; [contradiction|]. cbn [head0].
+    set (s' := set_gkey _ s).
+    assert (Eop : operating c s' = operating c s) by reflexivity.
+    assert (Eme : me s' = me s) by reflexivity.
+    rewrite Eop, Eme.
+    set (others := filter (fun m => negb (N.eqb m (me s))) (operating c s)).
+    assert (Hothers : forall m, In m others -> exists w, pubshare_for c s' m = Some w).
+    { intros m Hm. apply filter_In in Hm. destruct Hm as [Hm1 Hm2].
+      apply negb_true_iff in Hm2. apply N.eqb_neq in Hm2.
+      destruct (pubshare_for_total s m (Hall m Hm1 Hm2)) as (w & Hw & _).
+      exists w. exact Hw. }
+    rewrite (existsb_none_false (pubshare_for c s') others Hothers).
+    split; [reflexivity|].
+    destruct (pubshare_for_total s i (Hall i Hi Hne)) as (v & Hv1 & Hv2).
+    exists v. split; [|exact Hv2].
+    change (pubsh (set_pubsh ?x s')) with x.
+    apply lookup_flat_some; [exact Hothers| |exact Hv1].
+    apply filter_In. split; [exact Hi|]. apply negb_true_iff. apply N.eqb_neq. exact Hne.
+  Qed.
+
+  (* ----- phase 12: CombineGroupPublicKey ----- *)
+  Definition key_ok (s : mstate) : Prop :=
+    Permutation (me s :: map fst (validPts s) ++ map fst (reconPriv s)) qual /\
+    (exists own, head0 (points s) = Some own /\ (own mod Q = nth 0 (poly (me s)) 0 mod Q)%Z) /\
+    (forall k ps, In (k, ps) (validPts s) ->
+        exists a, head0 ps = Some a /\ (a mod Q = nth 0 (poly k) 0 mod Q)%Z) /\
+    (forall k z, In (k, z) (reconPriv s) -> (z mod Q = nth 0 (poly k) 0 mod Q)%Z).
+
+  Lemma key_fold1 : forall (l : list (N * list g2)) acc,
+    (forall k ps, In (k, ps) l -> exists a, head0 ps = Some a /\ (a mod Q = nth 0 (poly k) 0 mod Q)%Z) ->
+    (fold_left (fun acc p => match head0 (snd p) with
+                             | Some v => ((acc + v) mod Q)%Z | None => acc end) l acc mod Q
+     = (acc + fold_right Z.add 0 (map (fun k => nth 0 (poly k) 0) (map fst l))) mod Q)%Z.
+  Proof.
+    induction l as [|[k ps] l IH]; intros acc H; cbn [fold_left map fold_right fst snd].
+    - rewrite Z.add_0_r. reflexivity.
+    - destruct (H k ps (or_introl eq_refl)) as (a & Ea & Ha). rewrite Ea.
+      rewrite IH by (intros k0 ps0 H0; apply (H k0 ps0); right; exact H0).
+      rewrite Zplus_mod, Zplus_mod_idemp_l, (Zplus_mod acc), Ha, <- (Zplus_mod acc), <- Zplus_mod.
+      f_equal. ring.
+  Qed.
+  Lemma key_fold2 : forall (l : list (N * Z)) acc,
+    (forall k z, In (k, z) l -> (z mod Q = nth 0 (poly k) 0 mod Q)%Z) ->
+    (fold_left (fun acc p => ((acc + snd p) mod Q)%Z) l acc mod Q
+     = (acc + fold_right Z.add 0 (map (fun k => nth 0 (poly k) 0) (map fst l))) mod Q)%Z.
+  Proof.
+    induction l as [|[k z] l IH]; intros acc H; cbn [fold_left map fold_right fst snd].
+    - rewrite Z.add_0_r. reflexivity.
+    - rewrite IH by (intros k0 z0 H0; apply (H k0 z0); right; exact H0).
+      rewrite Zplus_mod, Zplus_mod_idemp_l, (Zplus_mod acc), (H k z (or_introl eq_refl)),
+        <- (Zplus_mod acc), <- Zplus_mod.
+      f_equal. ring.
+  Qed.
+
+  Lemma fold_add_app : forall a b : list Z,
+    fold_right Z.add 0%Z (a ++ b) = (fold_right Z.add 0 a + fold_right Z.add 0 b)%Z.
+  Proof. induction a as [|x a IH]; intros b; cbn [app fold_right]; [lia|]. rewrite IH. lia. Qed.
+
+  Lemma phase12_key : forall s, key_ok s -> (gkey (phase12 c s) mod Q = secret mod Q)%Z.
+  Proof.
+    intros s (Hperm & (own & Eo & Ho) & Hv & Hr).
+    unfold phase12. rewrite Eo. fold Q.
+    match goal with |- context [set_gkey ?k s] => set (k2 := k) end.
+    assert (Ek : (k2 mod Q = secret mod Q)%Z).
+    { unfold k2. rewrite key_fold2 by exact Hr.
+      rewrite <- Zplus_mod_idemp_l, key_fold1 by exact Hv.
+      rewrite Zplus_mod_idemp_l, <- Z.add_assoc, Zplus_mod_idemp_l, Zplus_mod, Ho, <- Zplus_mod.
+      unfold secret. rewrite <- (fold_add_perm _ _ (Permutation_map (fun k => nth 0 (poly k) 0%Z) Hperm)).
+      cbn [map fold_right]. rewrite map_app, fold_add_app. reflexivity. }
+    match goal with |- (gkey (if ?b then _ else _) mod Q = _)%Z => destruct b end; exact Ek.
+  Qed.
+End Dealing.
+
+(* ================================================================================= *)
+(* 2. t+1 shares interpolate to the secret                                           *)
+(* ================================================================================= *)
+
+(* reconstructIndividualPrivateKeys: the revealed shares of a misbehaved member k, when they lie
+   on its polynomial, give f_k(0) *)
+Lemma reconstructed_key_correct : forall (Q : Z) (f : list Z) (sh : list (N * Z)),
+  prime Q ->
+  NoDup (map fst sh) -> (forall p, In p sh -> (0 < Z.of_N (fst p) < Q)%Z) ->
+  (length f <= length sh)%nat ->
+  (forall p, In p sh -> (snd p mod Q = horner f (Z.of_N (fst p)) mod Q)%Z) ->
+  interpolate0 Q sh = (nth 0 f 0 mod Q)%Z.
+Proof. intros Q f sh Hp. apply interpolate0_correct. exact Hp. Qed.
+
+Lemma total_is_psum : forall poly qual i,
+  total poly qual i = horner (psum (map poly qual)) (Z.of_N i).
+Proof.
+  intros poly qual i. unfold total, D. rewrite horner_psum, map_map. reflexivity.
+Qed.
+Lemma secret_is_psum0 : forall poly qual,
+  secret poly qual = nth 0 (psum (map poly qual)) 0%Z.
+Proof.
+  intros poly qual. unfold secret. rewrite <- horner_at_0, horner_psum, map_map.
+  f_equal. apply map_ext. intros k. symmetry. apply horner_at_0.
+Qed.
+
+Lemma t_plus_1_interpolate : forall (Q : Z) (t : nat) (poly : N -> list Z) (qual : list N)
+                                    (pts : list (N * Z)),
+  prime Q ->
+  (forall k, In k qual -> (length (poly k) <= S t)%nat) ->
+  NoDup (map fst pts) -> length pts = S t ->
+  (forall p, In p pts -> (0 < Z.of_N (fst p) < Q)%Z) ->
+  (forall p, In p pts -> (snd p mod Q = total poly qual (fst p) mod Q)%Z) ->
+  interpolate0 Q pts = (secret poly qual mod Q)%Z.
+Proof.
+  intros Q t poly qual pts Hp Hdeg Hnd Hlen Hrange Hval.
+  rewrite secret_is_psum0.
+  apply interpolate0_correct; try assumption.
+  - rewrite Hlen. apply length_psum. intros f Hf. apply in_map_iff in Hf.
+    destruct Hf as (k & <- & Hk). apply Hdeg. exact Hk.
+  - intros p Hin. rewrite (Hval p Hin), total_is_psum. reflexivity.
+Qed.
+
+(* member i's share (phase 6) is the discrete log of the public key share member j stores for i
+   (phase 12) *)
+Lemma share_times_G_eq_pubshare : forall c poly qual si sj,
+  recv_ok c poly qual si ->
+  points sj <> [] ->
+  (forall m, In m (operating c sj) -> m <> me sj -> pub_ok c poly qual sj m) ->
+  In (me si) (operating c sj) -> me si <> me sj ->
+  failed (phase12 c sj) = failed sj /\
+  exists v, lookup (me si) (pubsh (phase12 c sj)) = Some v /\
+            (v mod q c = share (phase6 c si) mod q c)%Z.
+Proof.
+  intros c poly qual si sj Hr Hp Hall Hin Hne.
+  destruct (phase12_pubshare c poly qual sj (me si) Hp Hall Hin Hne) as (Hf & v & Hv1 & Hv2).
+  split; [exact Hf|]. exists v. split; [exact Hv1|].
+  rewrite Hv2. symmetry. apply phase6_share. exact Hr.
+Qed.
+
+(* the shares of any t+1 members whose views are consistent with the dealing interpolate to the
+   discrete log of the group key computed by any member whose view is consistent *)
+Lemma shares_interpolate_to_group_key : forall c poly qual (t : nat) (sts : list mstate) sj,
+  prime (q c) ->
+  (forall k, In k qual -> (length (poly k) <= S t)%nat) ->
+  (forall s, In s sts -> recv_ok c poly qual s /\ (0 < Z.of_N (me s) < q c)%Z) ->
+  NoDup (map me sts) -> length sts = S t ->
+  key_ok c poly qual sj ->
+  interpolate0 (q c) (map (fun s => (me s, share (phase6 c s))) sts) = (gkey (phase12 c sj) mod q c)%Z.
+Proof.
+  intros c poly qual t sts sj Hp Hdeg Hs Hnd Hlen Hk.
+  rewrite (phase12_key c poly qual sj Hk).
+  apply (t_plus_1_interpolate (q c) t poly qual); try assumption.
+  - rewrite map_map. cbn [fst]. exact Hnd.
+  - rewrite map_length. exact Hlen.
+  - intros p Hin. apply in_map_iff in Hin. destruct Hin as (s & <- & Hin). cbn [fst]. apply Hs. exact Hin.
+  - intros p Hin. apply in_map_iff in Hin. destruct Hin as (s & <- & Hin). cbn [fst snd].
+    apply phase6_share. apply Hs. exact Hin.
+Qed.
+
+(* ================================================================================= *)
+(* 3. the property on observables, and soundness of its executable form              *)
+(* ================================================================================= *)
+
+Inductive sublist {A} : list A -> list A -> Prop :=
+| sl_nil : forall l, sublist [] l
+| sl_take : forall x s l, sublist s l -> sublist (x :: s) (x :: l)
+| sl_skip : forall x s l, sublist s l -> sublist s (x :: l).
+
+Lemma sublists_complete : forall A (l s : list A), sublist s l -> In s (sublists (length s) l).
+Proof.
+  intros A l s H. induction H as [l|x s l H IH|x s l H IH].
+  - destruct l; cbn; left; reflexivity.
+  - cbn [length sublists]. apply in_or_app. left. apply in_map. exact IH.
+  - destruct s as [|y s]; [cbn; left; reflexivity|].
+    cbn [length sublists] in *. apply in_or_app. right. exact IH.
+Qed.
+
+(* the statement of C02 on what the honest members output; [f] lists the finished honest
+   members with their observed outputs (certified discrete logs, see Model/C02.v) *)
+Definition consistent_shares (Q : Z) (t : N) (f : list (N * fin)) : Prop :=
+  (forall a b, In a f -> In b f -> fst a <> fst b ->
+     lookup (fst a) (f_ps (snd b)) = Some (Some (f_share (snd a) mod Q)%Z)) /\
+  (forall sub a, sublist sub f -> length sub = S (N.to_nat t) -> In a f ->
+     f_key (snd a) = Some (interpolate0 Q (points_of sub))).
+
+Lemma optZ_eqb_some : forall a v, optZ_eqb a (Some v) = true -> a = Some v.
+Proof.
+  intros [x|] v; cbn [optZ_eqb]; [|discriminate]. intros H. apply Z.eqb_eq in H. subst. reflexivity.
+Qed.
+
+Lemma spec_ok_sound : forall cs, spec_ok cs = true -> in_scope cs = true ->
+  consistent_shares (q (i_cfg (c_in cs))) (gt (i_cfg (c_in cs))) (finished (c_obs cs)).
+Proof.
+  intros cs H Hs. unfold spec_ok in H. rewrite Hs in H. cbn [negb] in H.
+  apply andb_true_iff in H. destruct H as [H1 H2]. split.
+  - intros a b Ha Hb Hne. unfold shares_ok in H1. rewrite forallb_forall in H1.
+    specialize (H1 a Ha). rewrite forallb_forall in H1. specialize (H1 b Hb).
+    unfold pubshare_matches in H1. apply orb_true_iff in H1. destruct H1 as [E|E].
+    + apply N.eqb_eq in E. contradiction.
+    + destruct (lookup (fst a) (f_ps (snd b))) as [d|]; [|discriminate].
+      apply optZ_eqb_some in E. rewrite E. reflexivity.
+  - intros sub a Hsub Hlen Ha. unfold interpolation_ok in H2. rewrite forallb_forall in H2.
+    pose proof (sublists_complete _ _ _ Hsub) as Hin. rewrite Hlen in Hin.
+    specialize (H2 sub Hin). unfold subset_ok in H2. rewrite forallb_forall in H2.
+    apply optZ_eqb_some. apply H2. exact Ha.
+Qed.
+
 Lemma out_of_scope_ok : forall cs, in_scope cs = false -> spec_ok cs = true.
 Proof. intros cs H. unfold spec_ok. rewrite H. reflexivity. Qed.
+
+(* ================================================================================= *)
+(* 4. non-vacuity                                                                    *)
+(* ================================================================================= *)
+
+(* a complete honest run of the model, n = 3, t = 1, modulo 13: the views it reaches satisfy the
+   premises of the theorems above *)
+Definition ex_cfg : cfg := {| q := 13; gn := 3; gt := 1; csess := 1; ops := [1; 2; 3] |}.
+Definition ex_input : input :=
+  {| i_cfg := ex_cfg;
+     i_honest := [ {| h_id := 1; h_coefA := [3; 1]%Z; h_coefB := [2; 2]%Z |};
+                   {| h_id := 2; h_coefA := [1; 5]%Z; h_coefB := [4; 4]%Z |};
+                   {| h_id := 3; h_coefA := [2; 6]%Z; h_coefB := [7; 1]%Z |} ];
+     i_script := {| adv1 := []; adv3 := []; adv4 := []; adv7 := []; adv8 := []; adv10 := []; order := [] |} |}.
+Definition ex_dealt (k : N) : list Z :=
+  match k with 1 => [3; 1]%Z | 2 => [1; 5]%Z | 3 => [2; 6]%Z | _ => [] end.
+
+Example ex_views_consistent :
+  exists s1 s2 s3, run_states ex_input = [s1; s2; s3] /\
+    failed s1 = false /\ failed s2 = false /\
+    recv_ok ex_cfg ex_dealt [1; 2; 3] s1 /\
+    pub_ok ex_cfg ex_dealt [1; 2; 3] s2 1 /\ pub_ok ex_cfg ex_dealt [1; 2; 3] s2 3 /\
+    key_ok ex_cfg ex_dealt [1; 2; 3] s2.
+Proof.
+  remember (run_states ex_input) as sts eqn:E. vm_compute in E. subst sts.
+  do 3 eexists. split; [reflexivity|]. split; [reflexivity|]. split; [reflexivity|].
+  assert (P : Permutation [2; 1; 3] [1; 2; 3]) by apply perm_swap.
+  split; [|split; [|split]].
+  - split; [apply Permutation_refl|]. split; [reflexivity|].
+    intros k v Hin. cbn in Hin. destruct Hin as [[= <- <-]|[[= <- <-]|[]]]; reflexivity.
+  - split; [exact P|]. split; [reflexivity|].
+    intros k Hin. cbn in Hin. destruct Hin as [<-|[<-|[]]]; left; eexists; split; reflexivity.
+  - split; [exact P|]. split; [reflexivity|].
+    intros k Hin. cbn in Hin. destruct Hin as [<-|[<-|[]]]; left; eexists; split; reflexivity.
+  - split; [exact P|]. split; [eexists; split; reflexivity|]. split.
+    + intros k ps Hin. cbn in Hin. destruct Hin as [[= <- <-]|[[= <- <-]|[]]]; eexists; split; reflexivity.
+    + intros k z Hin. destruct Hin.
+Qed.
+
+Lemma prime_13 : prime 13.
+Proof.
+  apply prime_intro; [lia|]. intros n Hn.
+  assert (E : (n = 1 \/ n = 2 \/ n = 3 \/ n = 4 \/ n = 5 \/ n = 6 \/ n = 7 \/ n = 8 \/ n = 9 \/ n = 10
+               \/ n = 11 \/ n = 12)%Z) by lia.
+  repeat (destruct E as [->|E]; [apply Zgcd_1_rel_prime; reflexivity|]).
+  subst. apply Zgcd_1_rel_prime. reflexivity.
+Qed.
+
+(* n = 5, t = 2, QUAL = {1,2,4} (3 never qualified, 5's key was reconstructed or not - it does
+   not matter for the shares): polynomials modulo 13 *)
+Definition ex_poly (k : N) : list Z :=
+  match k with 1 => [3; 1; 4]%Z | 2 => [1; 5; 9]%Z | 4 => [2; 6; 5]%Z | _ => [] end.
+Definition ex_qual : list N := [1; 2; 4].
+Definition ex_pts : list (N * Z) := map (fun i => (i, (total ex_poly ex_qual i mod 13)%Z)) [2; 4; 5].
+
+Example ex_interpolates :
+  interpolate0 13 ex_pts = (secret ex_poly ex_qual mod 13)%Z /\ (secret ex_poly ex_qual mod 13 = 6)%Z.
+Proof.
+  split; [|reflexivity].
+  apply (t_plus_1_interpolate 13 2 ex_poly ex_qual ex_pts prime_13).
+  - intros k Hk. cbn in Hk. destruct Hk as [<-|[<-|[<-|[]]]]; cbn; lia.
+  - cbn. repeat constructor; cbn; intuition discriminate.
+  - reflexivity.
+  - intros p Hin. cbn in Hin. destruct Hin as [<-|[<-|[<-|[]]]]; cbn; lia.
+  - intros p Hin. cbn in Hin. destruct Hin as [<-|[<-|[<-|[]]]]; reflexivity.
+Qed.
